@@ -360,3 +360,60 @@ Proof.
   pose proof (static_conds _ _ G FD (from_ok_drops_faithful _ _ _ _ _ FO HP) DA) as C.
   exact (arms_sound _ _ _ W ND (conds_arms_ok _ _ G C) E).
 Qed.
+
+(** * the planner's view is the inspection of the state *)
+
+Lemma find_xtable_inspect' n l :
+  find_xtable n (map inspect_table l) = option_map inspect_table (find_ct n l).
+Proof.
+  unfold find_xtable, find_ct. induction l as [|c l IH]; simpl; [reflexivity|].
+  change (x_name (inspect_table c)) with (ct_name c).
+  destruct (str_eqb (ct_name c) n); [reflexivity|exact IH].
+Qed.
+
+Lemma find_idx_from_map (f : index -> index) m l : forall k0 k i,
+  (forall j, i_name (f j) = i_name j) ->
+  find_idx_from k0 m (map f l) = Some (k, i) -> exists j, In j l /\ i = f j.
+Proof.
+  induction l as [|a l IH]; intros k0 k i Hf H; simpl in H; [discriminate|].
+  rewrite Hf in H. destruct (str_eqb (i_name a) m).
+  - inversion H; subst. exists a. split; [now left|reflexivity].
+  - destruct (IH (S k0) k i Hf H) as (j & Hj & E). exists j. split; [now right|exact E].
+Qed.
+
+Lemma inspect_indexes_no_uniques ct :
+  ct_uniques ct = [] -> t_idx (x_t (inspect_table ct)) = map inspect_index (ct_idx ct).
+Proof.
+  intros E. change (t_idx (x_t (inspect_table ct))) with (inspect_indexes ct).
+  unfold inspect_indexes. rewrite E. reflexivity.
+Qed.
+
+Lemma inspect_from_ok d : idx_ok d -> from_ok d (inspect d).
+Proof.
+  intros OK t xf m k i tt i' Hx Hi Ht Hn.
+  unfold inspect in Hx. rewrite find_xtable_inspect' in Hx.
+  destruct (find_ct t (db_tables d)) as [ct|] eqn:Hf; [|discriminate].
+  inversion Hx; subst xf; clear Hx.
+  destruct (find_ct_some _ _ _ Hf) as [Hin _].
+  destruct (OK ct Hin) as [Hu Hall].
+  rewrite (inspect_indexes_no_uniques ct Hu) in Hi. unfold find_idx in Hi.
+  destruct (find_idx_from_map inspect_index m (ct_idx ct) 0 k i (fun j => eq_refl) Hi) as (j & Hj & ->).
+  destruct (Hall j Hj) as (Hna & Hst & Hdef & Hdup).
+  unfold normalize_idx_name in Hn. change (i_name (inspect_index j)) with (i_name j) in Hn.
+  rewrite Hna in Hn. inversion Hn; subst i'; clear Hn.
+  exists ct, j. repeat split; try assumption; try reflexivity. now symmetry.
+Qed.
+
+(** C17 item 1 for the plans without DropTable when the planner is given the inspection of the
+    state it will run on. *)
+Theorem reversible_sound_inspect to cs p d d1 :
+  db_wf d = true -> names_ok d -> idx_ok d -> xschema_wf to = true -> no_drop_table cs = true ->
+  PlanChanges (inspect d) to cs = Some p -> p_reversible p = true ->
+  fresh_drops (p_changes p) = true ->
+  droppable_along d (p_changes p) ->
+  exec_all d (up_stmts (p_changes p)) = Ok d1 ->
+  exists d2, exec_all d1 (down_stmts (p_changes p)) = Ok d2 /\ sim d d2.
+Proof.
+  intros W ND IO XW NT HP R FD DA E.
+  exact (reversible_sound_static (inspect d) to cs p d d1 W ND XW NT (inspect_from_ok d IO) HP R FD DA E).
+Qed.
